@@ -1,0 +1,37 @@
+//go:build verif
+
+package client
+
+// Contracts for the deductive verifier under /verif (govc). This file contains
+// only comments: it adds no code with or without the build tag.
+
+// A Client is built by NewClient only; these fields are set there, once.
+//@ immutable Client sess, responseTimeout, awaitingReply, eventHandlers, topicSubID, invHandlers, invHandlersQueues, invHandlersCtxs, nameProcID, invHandlerKill, progGate, log, debug, cancel, ctx
+//@ fieldinv Client.sess : v != nil
+//@ fieldinv Client.awaitingReply : v != nil
+//@ fieldinv Client.eventHandlers : v != nil
+//@ fieldinv Client.topicSubID : v != nil
+//@ fieldinv Client.invHandlers : v != nil
+//@ fieldinv Client.invHandlersQueues : v != nil
+//@ fieldinv Client.invHandlersCtxs : v != nil
+//@ fieldinv Client.nameProcID : v != nil
+//@ fieldinv Client.invHandlerKill : v != nil
+//@ fieldinv Client.progGate : v != nil
+//@ fieldinv Client.log : !isnil(v)
+//@ fieldinv Client.cancel : v != nil
+//@ fieldinv Client.ctx : !isnil(v)
+
+// Handlers registered by the application are functions, never nil; so are the
+// per-invocation cancel functions and contexts the client stores itself.
+//@ mapinv map[wamp.ID]EventHandler : v != nil
+//@ mapinv map[wamp.ID]InvocationHandler : v != nil
+//@ mapinv map[wamp.ID]context.CancelFunc : v != nil
+//@ mapinv map[clientInvocation]context.Context : !isnil(v)
+//@ mapinv map[clientInvocation]chan *wamp.Invocation : v != nil
+//@ mapinv map[wamp.ID]chan wamp.Message : v != nil
+
+// NewClient is exported for applications that bring their own Peer; it needs
+// a peer and (unlike ConnectNet/ConnectLocal, which default it) a logger.
+//@ func NewClient
+//@   props C17
+//@   requires !isnil(p) && !isnil(cfg.Logger)
